@@ -255,6 +255,20 @@ Proof.
   - split; [contradiction|]. intros [s' [E _]]. discriminate.
 Qed.
 
+(** in an accepted configuration every mirror is attached, to exactly the server it names *)
+Lemma valid_cfg_attaches_all g sh s i mc :
+  valid_cfg g = true -> nth_error g sh = Some s -> nth_error (mirrors s) i = Some mc ->
+  In (i, mc) (mirrors_of g sh (m_target mc)) /\
+  forall idx, In (i, mc) (mirrors_of g sh idx) -> idx = m_target mc.
+Proof.
+  intros V G M. split.
+  - apply mirrors_of_spec. exists s. repeat split; auto.
+    unfold valid_cfg in V. rewrite forallb_forall in V.
+    specialize (V s (nth_error_In _ _ G)). rewrite forallb_forall in V.
+    specialize (V mc (nth_error_In _ _ M)). apply Nat.ltb_lt in V. exact V.
+  - intros idx H. apply mirrors_of_spec in H. destruct H as [s' [_ [_ [_ T]]]]. auto.
+Qed.
+
 (** * The pooler: invariant of every reachable world *)
 
 Definition attached (g : cfg) (c : conn) (m : mchan) : Prop :=
